@@ -179,6 +179,15 @@ class Check(object):
                        'why': 'proof incomplete' if incomplete else
                               ('every run' if always else 'thorough tier')}
                 self.bounded.append(rec)
+                kf_all = {e['id']: e for e in json.load(open(os.path.join(
+                    VERIF, 'known_findings.json'))).get('findings', [])} \
+                    if os.path.exists(os.path.join(VERIF, 'known_findings.json')) else {}
+                for fid in out.get('known_hits', []) or []:
+                    if fid in kf_all and self.prop in kf_all[fid]['properties']:
+                        line = 'KNOWN-FINDING: property=%s %s' % (
+                            self.prop, kf_all[fid]['what'])
+                        if line not in lines:
+                            lines.append(line)
                 if out.get('reproduced'):
                     os.makedirs(os.path.join(VERIF, 'replays'), exist_ok=True)
                     path = os.path.join(VERIF, 'replays', '%s-%s.json' % (
